@@ -28,9 +28,10 @@ def expected_cut(cluster_start0):
 
 def split_dataset(seed=11, chrom_len=60000, n_fill=700, f_exons=((1000, 1500), (25000, 25600)),
                   n_exons=((25300, 25800), (40000, 40300), (41000, 41500)), starts=(25300, 25700), per_start=3,
-                  strand="+", annotate_f=False, genes=(), with_filler=True, far_gene=True):
+                  strand="+", annotate_f=False, genes=(), with_filler=True, far_gene=True, ends=None):
     """-> synth.Dataset.  `starts`: 5' coordinates of the read groups of isoform N (first exon start replaced);
-    `genes`: extra annotated genes [(gene_id, strand, [(tid, exons)])]"""
+    `genes`: extra annotated genes [(gene_id, strand, [(tid, exons)])]; `per_start`: number of reads per group (int or one per group);
+    `ends`: high-coordinate end of the last exon per group (None = as `n_exons`)"""
     ds = synth.Dataset(seed)
     ds.add_chrom("chr1", chrom_len)
     F = [tuple(e) for e in f_exons]
@@ -44,6 +45,9 @@ def split_dataset(seed=11, chrom_len=60000, n_fill=700, f_exons=((1000, 1500), (
     for j, s in enumerate(starts):
         for k in range(per_start[j] if isinstance(per_start, (tuple, list)) else per_start):
             ex = [(s, N[0][1])] + N[1:]
+            if ends is not None and ends[j] is not None:
+                # round c04rep2: read groups that also differ at the high-coordinate end (3' end of a '+' isoform)
+                ex = ex[:-1] + [(ex[-1][0], ends[j])]
             ds.read_from_exons("N%d_%d" % (s, k), "chr1", ex, flag=flag, **tail)
     if annotate_f:
         ds.add_gene("chr1", "GF", strand, [("TF", F)], plant=False)
@@ -79,9 +83,22 @@ def random_split_dataset(seed, with_filler=True):
     hi = min(bal + rng.randint(100, 400), n1e - 60)
     starts = sorted({lo, hi} | ({bal + rng.choice([-40, 40])} if rng.random() < 0.3 else set()))
     per_start = rng.choice([3, 3, 4, 5])
-    total = per_start * len(starts)
+    annotate_f = rng.random() < 0.5
+    # round c04rep2: (a) the LATER groups (higher 5' coordinate -> resolved into the later sub-region) may hold fewer reads than
+    # any novel cutoff (1 or 2: no model is built there; the first group keeps >= 3 so that the isoform is reported at all);
+    # (b) '-' loci: the varying low-coordinate end is then the polyT (3') end; (c) a later group whose 3' end lies further out
+    # than the first group's (the class `split_region_apa_variant`: the uncut run reports the other APA variant)
+    counts = [per_start] * len(starts)
+    if rng.random() < 0.45:
+        counts = [max(3, per_start + rng.choice([0, 2, 7]))] + [rng.choice([1, 2]) for _ in starts[1:]]
+    strand = "-" if rng.random() < 0.3 else "+"
+    ends = None
+    if rng.random() < 0.15:
+        ends = [None] * (len(starts) - 1) + [end + rng.choice([300, 900])]
+    total = sum(counts)
     ds = split_dataset(seed=seed, chrom_len=max(60000, end + 9000), n_fill=max(500, 100 * total + 100), f_exons=(f1, f2),
-                       n_exons=[(lo, n1e)] + rest, starts=starts, per_start=per_start, strand="+",
-                       annotate_f=rng.random() < 0.5, far_gene=True, with_filler=with_filler)
-    info = {"cut": cut, "balance": bal, "starts": starts, "n_exons": [(lo, n1e)] + rest, "reads_of_N": total}
+                       n_exons=[(lo, n1e)] + rest, starts=starts, per_start=counts, strand=strand,
+                       annotate_f=annotate_f, far_gene=True, with_filler=with_filler, ends=ends)
+    info = {"cut": cut, "balance": bal, "starts": starts, "n_exons": [(lo, n1e)] + rest, "reads_of_N": total, "per_start": counts,
+            "strand": strand, "ends": ends}
     return ds, info
